@@ -25,6 +25,13 @@ type scriptReader struct {
 
 func (s *scriptReader) Read(p []byte) (int, error) {
 	s.reads++
+	// a third of the scripts deliver short reads (1..7 octets per call, nil error): legal for an io.Reader, and what a
+	// caller that does not use io.ReadFull would silently turn into a partly unfilled buffer
+	if len(s.data) > 0 && s.data[0]%3 == 0 && len(p) > 0 {
+		if chunk := int(s.data[0]>>4)%7 + 1; len(p) > chunk {
+			p = p[:chunk]
+		}
+	}
 	for i := 0; i < len(p); i++ {
 		if s.pos+i >= len(s.data) {
 			s.pos = len(s.data)
